@@ -188,7 +188,7 @@ func runC05(c *rt.Ctx) {
 
 // ChunkRace is the concurrent scenario.
 type ChunkRace struct {
-	// Mode "" = two setters and a reader; "append" / "prepend" = value A exists, one connection
+	// Mode "" = two setters and a reader; "sameconn" = the two sets go through one connection; "append" / "prepend" = value A exists, one connection
 	// appends/prepends to it (a read-modify-write of the whole value) while another reads
 	Mode    string `json:"mode,omitempty"`
 	NA, NB  int    `json:"na_nb"`
@@ -232,7 +232,13 @@ func runChunkRace(sc ChunkRace, prefix []int) *chunkRaceResult {
 	hB, cB := mk("B")
 	hR, cR := mk("R")
 	conns = append(conns, cA, cB, cR)
-	if sc.Mode != "" {
+	if sc.Mode == "sameconn" {
+		// both values are written one after the other through ONE connection while the reader runs
+		s.Go(0, func() { results[0] = HRes{Class: "ok"} })
+		opB2 := opB
+		opB = wire.Op{}
+		s.Go(1, func() { results[0] = CallHandler(hB, opA); results[1] = CallHandler(hB, opB2) })
+	} else if sc.Mode != "" {
 		// A is written beforehand (no scheduling); B's connection extends it by a few bytes so that
 		// the chunk count stays the same; the reader may see A or the extended value, or miss
 		cA.Before = nil
@@ -246,7 +252,9 @@ func runChunkRace(sc ChunkRace, prefix []int) *chunkRaceResult {
 	} else {
 		s.Go(0, func() { results[0] = CallHandler(hA, opA) })
 	}
-	s.Go(1, func() { results[1] = CallHandler(hB, opB) })
+	if sc.Mode != "sameconn" {
+		s.Go(1, func() { results[1] = CallHandler(hB, opB) })
+	}
 	s.Go(2, func() {
 		results[2] = CallHandler(hR, rd)
 		if sc.Reader == "append" {
@@ -317,6 +325,11 @@ func exploreChunkRaces(c *rt.Ctx, item *int) {
 	for _, sh := range shapes {
 		for _, rd := range []string{"get", "gat", "append"} {
 			progs = append(progs, prog{"", sh, rd})
+		}
+	}
+	for _, sh := range shapes {
+		for _, rd := range []string{"get", "gat"} {
+			progs = append(progs, prog{"sameconn", sh, rd})
 		}
 	}
 	for _, mode := range []string{"append", "prepend"} {
